@@ -10,6 +10,9 @@
     the getters applied to the stored form return the original secrets (mount_in_copy defaulting to False, [] / missing -> None),
     service account, file flags and machine spec - decided by symbolic execution of the real writer followed by the real
     readers on the writer's symbolic result.
+(c) contracts/C15_sites.py: the store site (front_end.py::_create_jobs: the bits written for a job are the encoding of THAT job's
+    regions), the decode site (job_private.py: the per-job coroutine decodes ITS record) and the stability of the region ids
+    (table `regions` is only ever extended, never rewritten).
 """
 from __future__ import annotations
 
@@ -153,7 +156,11 @@ print(json.dumps(res))
 
 def native_witness(ctx):
     """concrete search on the real code, usable when the contracts no longer apply to a changed source (vc/check.py)"""
-    return core.run_native(REPLAY, {})
+    r = core.run_native(REPLAY, {})
+    if r and r.get('confirmed'):
+        return r
+    from contracts import C15_sites
+    return C15_sites.native_witness()
 
 
 def build(ctx):
@@ -165,6 +172,10 @@ def build(ctx):
     ctx.witness_search = lambda: core.run_native(REPLAY, {})
     from contracts import C15_spec
     C15_spec.build(ctx)
+    # (c) the sites the round trip of a stored job depends on: the bits stored for a job are those of ITS spec, the bits decoded
+    # for a job are ITS stored bits, and the region -> id mapping is stable across driver starts (contracts/C15_sites.py)
+    from contracts import C15_sites
+    C15_sites.build(ctx)
     ctx.assume('region ids are unique and lie in [1, 63] (AUTO_INCREMENT primary key of the regions table; the code asserts idx < 64 only): precondition of both contracts')
     ctx.assume('the stored bitset is a 64-bit vector (MySQL BIGINT); Python ints are unbounded but the encoded value stays below 2**63 under the precondition')
-    ctx.assume('selected regions are keys of the mapping (front_end validates the regions against the mapping before encoding)')
+    ctx.assume('selected regions are keys of the mapping: precondition of the encoder contract, DISCHARGED at its only call site (obligation _create_jobs[region-bits/spec-with-regions]/pre/regions_to_bits_rep/selected-regions-are-keys-of-the-mapping)')
